@@ -132,7 +132,7 @@ Proof.
   unfold read_pi. destruct (span is_name_char s) as [a b] eqn:E. apply span_len in E.
   destruct (null a); [discriminate|].
   destruct (py_prefix L_PI_CLOSE b).
-  - intros H. injection H as <- <- <-. rewrite skipn_length. lia.
+  - intros H. destruct b as [|x [|y b']]; injection H as <- <- <-; cbn in *; lia.
   - destruct (starts_ws b); [|discriminate].
     destruct (read_until L_PI_CLOSE (skip_ws b)) as [[c' r']|] eqn:E2; [|discriminate].
     intros H. injection H as <- <- <-. apply read_until_len in E2. pose proof (skip_ws_le b). lia.
@@ -209,4 +209,92 @@ Proof.
     repeat match type of Ed with
            | context [match ?x with _ => _ end] => destruct x; try discriminate
            end.
+Qed.
+
+(* ------------------------------------------------------------------------------------------ *)
+(* parse_misc reads back what misc_str wrote *)
+
+(* `tail` is not whitespace, a comment or a PI: parse_misc stops in front of it *)
+Definition stops (tail : str) : Prop :=
+  starts_ws tail = false /\ py_prefix L_COMMENT_OPEN tail = false /\ py_prefix L_PI_OPEN tail = false.
+
+Lemma stops_nil : stops []. Proof. repeat split. Qed.
+
+Lemma stops_root rootc rest : root_shape rootc = true -> stops (rootc ++ rest).
+Proof.
+  unfold root_shape. destruct rootc as [|a [|c r]]; try discriminate.
+  - destruct a; try discriminate. repeat (destruct p; try discriminate).
+  - intros H.
+    assert (Ha : a = 60) by (destruct a; try discriminate; repeat (destruct p; try discriminate); reflexivity).
+    subst a. apply andb_true_iff in H. destruct H as [H _]. apply andb_true_iff in H. destruct H as [H1 H2].
+    apply negb_true_iff in H1, H2. unfold stops. cbn [app starts_ws]. repeat split.
+    + unfold L_COMMENT_OPEN. cbn [py_prefix]. rewrite (N.eqb_sym 33 c), H1. reflexivity.
+    + unfold L_PI_OPEN. cbn [py_prefix]. rewrite (N.eqb_sym 63 c), H2. reflexivity.
+Qed.
+
+Lemma parse_misc_stop rc rp f w tail :
+  all_xml_ws w -> stops tail -> parse_misc rc rp (S f) (w ++ tail) = Ok ([], tail).
+Proof.
+  intros Hw (H1 & H2 & H3). rewrite parse_misc_S. cbv zeta.
+  rewrite skip_ws_app, skip_ws_id by assumption. rewrite H2, H3. reflexivity.
+Qed.
+
+Lemma parse_misc_comment rc rp f w c rest :
+  all_xml_ws w -> comment_ok c = true ->
+  parse_misc rc rp (S f) (w ++ misc_str (Comment c) ++ rest) =
+  match parse_misc rc rp f rest with
+  | Ok (l, r') => Ok (if rc then l else Comment c :: l, r')
+  | e => e
+  end.
+Proof.
+  intros Hw Hc. rewrite parse_misc_S. cbv zeta. rewrite skip_ws_app by assumption.
+  cbn [misc_str]. rewrite <- !app_assoc.
+  rewrite skip_ws_id by reflexivity. rewrite py_prefix_app.
+  change 4%nat with (length L_COMMENT_OPEN). rewrite skipn_app_exact.
+  rewrite read_until_comment by assumption. rewrite Hc. reflexivity.
+Qed.
+
+Lemma parse_misc_pi rc rp f w t c rest :
+  all_xml_ws w -> pi_target_ok t = true -> pi_content_ok c = true ->
+  parse_misc rc rp (S f) (w ++ misc_str (PI t c) ++ rest) =
+  match parse_misc rc rp f rest with
+  | Ok (l, r') => Ok (if rp then l else PI t c :: l, r')
+  | e => e
+  end.
+Proof.
+  intros Hw Ht Hc. rewrite parse_misc_S. cbv zeta. rewrite skip_ws_app by assumption.
+  cbn [misc_str]. rewrite <- !app_assoc.
+  rewrite skip_ws_id by reflexivity.
+  assert (Hn : py_prefix L_COMMENT_OPEN (L_PI_OPEN ++ t ++ [SP] ++ c ++ L_PI_CLOSE ++ rest) = false) by reflexivity.
+  rewrite Hn. rewrite py_prefix_app.
+  change 2%nat with (length L_PI_OPEN). rewrite skipn_app_exact.
+  rewrite read_pi_str by assumption.
+  unfold pi_target_ok in Ht. apply andb_true_iff in Ht. destruct Ht as [_ Hx]. apply negb_true_iff in Hx.
+  rewrite Hx. reflexivity.
+Qed.
+
+Lemma parse_misc_ws rc rp f w s : all_xml_ws w -> parse_misc rc rp f (w ++ s) = parse_misc rc rp f s.
+Proof.
+  intros Hw. destruct f; [reflexivity|]. rewrite !parse_misc_S. cbv zeta. rewrite skip_ws_app by assumption.
+  reflexivity.
+Qed.
+
+(* any number of written comments / PIs, each with whitespace w1 before and w2 after it *)
+Lemma parse_misc_items rc rp w1 w2 w3 tail : all_xml_ws w1 -> all_xml_ws w2 -> all_xml_ws w3 -> stops tail ->
+  forall l f, forallb misc_ok l = true -> (length l < f)%nat ->
+  parse_misc rc rp f (flat_map (fun n => w1 ++ misc_str n ++ w2) l ++ w3 ++ tail)
+  = Ok (filter (keep rc rp) l, tail).
+Proof.
+  intros H1 H2 H3 Hs. induction l as [|n l IH]; intros f Hok Hf.
+  - destruct f; [cbn in Hf; lia|]. cbn [flat_map app filter]. apply parse_misc_stop; assumption.
+  - destruct f; [cbn in Hf; lia|]. cbn [forallb] in Hok. apply andb_true_iff in Hok. destruct Hok as [Hn Hl].
+    cbn [flat_map]. rewrite <- !app_assoc.
+    assert (IH' : parse_misc rc rp f (w2 ++ flat_map (fun n0 => w1 ++ misc_str n0 ++ w2) l ++ w3 ++ tail)
+                  = Ok (filter (keep rc rp) l, tail)).
+    { rewrite parse_misc_ws by assumption. apply IH; [assumption|cbn in Hf; lia]. }
+    destruct n as [| |c|t c]; try discriminate; cbn [misc_ok] in Hn.
+    + apply andb_true_iff in Hn. destruct Hn as [Hc _].
+      rewrite parse_misc_comment by assumption. rewrite IH'. cbn [filter keep]. destruct rc; reflexivity.
+    + apply andb_true_iff in Hn. destruct Hn as [Hn _]. apply andb_true_iff in Hn. destruct Hn as [Ht Hc].
+      rewrite parse_misc_pi by assumption. rewrite IH'. cbn [filter keep]. destruct rp; reflexivity.
 Qed.
